@@ -3,6 +3,7 @@ pub mod bits;
 pub mod dec;
 pub mod gen;
 pub mod gen_pic;
+pub mod hdr;
 pub mod hist;
 pub mod io;
 pub mod model;
